@@ -357,5 +357,69 @@ theorem packages_stanzas (flt : Filter) (ign : List Path) (sts : List Stanza) (h
       simp only [withPool, bind, Except.bind, packagesLine_blank, foldlM_blanks, pure, Except.pure]
       exact ih (fun x hx => hb x (List.mem_cons_of_mem _ hx)) (fun x hx => hok x (List.mem_cons_of_mem _ hx)) _
 
+
+/-! ### what a stanza's `Package` is: the value of its (last) `Package` field -/
+def lastField (key : S) (fs : List Field) : Option Field := (fs.filter (fun f => f.name = key)).getLast?
+
+theorem specField_package (s s1 : PState) (f : Field) (h : specField s f = .ok s1) :
+    s1.package = if f.name = kPackage then some (f.rest.drop 1) else s.package := by
+  unfold specField at h
+  by_cases h1 : f.name = kPackage
+  · simp only [h1, if_true, pure, Except.pure, Except.ok.injEq] at h
+    rw [← h]; simp [h1]
+  · simp only [h1, if_false] at h ⊢
+    split at h
+    · split at h
+      · simp only [pure, Except.pure, Except.ok.injEq] at h; rw [← h]
+      · cases h
+    · split at h
+      · split at h <;> (simp only [pure, Except.pure, Except.ok.injEq] at h; rw [← h])
+      · split at h
+        · split at h
+          · simp only [pure, Except.pure, Except.ok.injEq] at h; rw [← h]
+          · cases h
+        · split at h <;> (simp only [pure, Except.pure, Except.ok.injEq] at h; rw [← h])
+
+theorem specFields_cons (s : PState) (f : Field) (fs : List Field) (s' : PState) (h : specFields s (f :: fs) = .ok s') :
+    ∃ s1, specField s f = .ok s1 ∧ specFields s1 fs = .ok s' := by
+  unfold specFields at h
+  simp only [List.foldlM_cons, bind, Except.bind] at h
+  cases hs : specField s f with
+  | error e => rw [hs] at h; cases h
+  | ok s1 => rw [hs] at h; exact ⟨s1, rfl, h⟩
+
+/-- the `package` read from a stanza is the value of its last `Package` field (its only one in a well-formed stanza), or
+    what it was before if the stanza has none -/
+theorem specFields_package (fs : List Field) (s s' : PState) (h : specFields s fs = .ok s') :
+    s'.package = match lastField kPackage fs with
+      | some f => some (f.rest.drop 1)
+      | none => s.package := by
+  induction fs generalizing s with
+  | nil =>
+    simp only [specFields, List.foldlM_nil, pure, Except.pure, Except.ok.injEq] at h
+    rw [← h]; rfl
+  | cons f fs ih =>
+    obtain ⟨s1, h1, h2⟩ := specFields_cons s f fs s' h
+    have hi := ih s1 h2
+    have hp := specField_package s s1 f h1
+    unfold lastField at hi ⊢
+    by_cases hn : f.name = kPackage
+    · simp only [List.filter_cons, hn, decide_true, if_true]
+      cases hf : (fs.filter (fun f => decide (f.name = kPackage))) with
+      | nil =>
+        rw [hf] at hi
+        simp only [List.getLast?_nil] at hi
+        simp only [List.getLast?_singleton]
+        rw [hi, hp]; simp [hn]
+      | cons g gs =>
+        rw [hf] at hi
+        rw [List.getLast?_cons_cons]
+        exact hi
+    · simp only [List.filter_cons, hn, decide_false, Bool.false_eq_true, if_false]
+      rw [hi]
+      cases (fs.filter (fun f => decide (f.name = kPackage))).getLast? with
+      | some g => rfl
+      | none => simp only; rw [hp]; simp [hn]
+
 end Index
 end AptMirror
